@@ -81,7 +81,7 @@ var jsonValues = map[string]string{
 	"array-empty": `[]`, "array-null": `[null]`, "array-number": `[1,2]`, "array-string": `["a","b"]`, "array-object": `[{"k":"a","k1":"a","k2":1,"u":"x","v":"x"}]`,
 	"array-object-no-key": `[{"v":"x"}]`, "array-object-bad-key": `[{"k":{"x":1},"k1":[1],"k2":"zz"}]`, "array-object-dup-key": `[{"k":"a","k1":"a","k2":1},{"k":"a","k1":"a","k2":1}]`,
 	"array-array": `[[1]]`, "array-mixed": `[1,"a",null,{}]`, "array-null-object": `[null,{"k":"a"}]`,
-	"deep-nesting": strings.Repeat("[", 300) + strings.Repeat("]", 300),
+	"deep-nesting":                  strings.Repeat("[", 300) + strings.Repeat("]", 300),
 	"array-object-key-twice-array":  `[{"k":["a"],"k1":["a"],"k2":[1],"config":{"k":["a"],"k1":["a"],"k2":[1]}}]`,
 	"array-object-key-twice-object": `[{"k":{"x":1},"k1":{"x":1},"k2":{"x":1},"config":{"k":{"x":1},"k1":{"x":1},"k2":{"x":1}}}]`,
 	"array-object-key-twice-differ": `[{"k":"a","k1":"a","k2":1,"config":{"k":"b","k1":"b","k2":2}}]`,
@@ -228,7 +228,9 @@ func reqShape(s string) (*gpb.SetRequest, []*gpb.Notification) {
 		}
 		return &gpb.TypedValue{Value: &gpb.TypedValue_LeaflistVal{LeaflistVal: sa}}
 	}
-	js := func(x string) *gpb.TypedValue { return &gpb.TypedValue{Value: &gpb.TypedValue_JsonIetfVal{JsonIetfVal: []byte(x)}} }
+	js := func(x string) *gpb.TypedValue {
+		return &gpb.TypedValue{Value: &gpb.TypedValue_JsonIetfVal{JsonIetfVal: []byte(x)}}
+	}
 	switch s {
 	case "nil":
 		return nil, nil
@@ -396,13 +398,17 @@ func malformedCmd(args []string) *rep.Result {
 			var pan string
 			switch f["api"] {
 			case "UnmarshalSetRequest":
-				_, pan = guard(func() error { return ytypes.UnmarshalSetRequest(&ytypes.Schema{Root: populatedRoot(pkg), SchemaTree: st}, req) })
+				_, pan = guard(func() error {
+					return ytypes.UnmarshalSetRequest(&ytypes.Schema{Root: populatedRoot(pkg), SchemaTree: st}, req)
+				})
 			case "UnmarshalSetRequest-best-effort":
 				_, pan = guard(func() error {
 					return ytypes.UnmarshalSetRequest(&ytypes.Schema{Root: populatedRoot(pkg), SchemaTree: st}, req, &ytypes.BestEffortUnmarshal{}, &ytypes.PreferShadowPath{})
 				})
 			case "UnmarshalNotifications":
-				_, pan = guard(func() error { return ytypes.UnmarshalNotifications(&ytypes.Schema{Root: populatedRoot(pkg), SchemaTree: st}, notifs) })
+				_, pan = guard(func() error {
+					return ytypes.UnmarshalNotifications(&ytypes.Schema{Root: populatedRoot(pkg), SchemaTree: st}, notifs)
+				})
 			case "DiffSetRequest-schema":
 				_, pan = guard(func() error { _, err := gnmidiff.DiffSetRequest(req, req, sch); return err })
 			case "DiffSetRequest-noschema":
@@ -425,7 +431,10 @@ func malformedCmd(args []string) *rep.Result {
 			return res
 		}
 		if mc.Kind == "STR" {
-			if _, pan := guard(func() error { _, err := ygot.StringToPath(mc.F["s"], ygot.StructuredPath, ygot.StringSlicePath); return err }); pan != "" {
+			if _, pan := guard(func() error {
+				_, err := ygot.StringToPath(mc.F["s"], ygot.StructuredPath, ygot.StringSlicePath)
+				return err
+			}); pan != "" {
 				violate("STR", mc.F, reg.Get(mc.Pkg), "StringToPath", pan)
 			}
 			return res
